@@ -468,7 +468,9 @@ pub fn run_check(
                 cleanup_scratch();
                 return 2;
             }
-            let min = minimise(&spec.opts, spec.prefix.len(), h, v);
+            // a recovery verdict is about the WHOLE fair continuation: dropping events from it
+            // would turn a fair schedule into an unfair one
+            let min = if h.iter().any(|e| matches!(e, Event::AssertRecovered(_))) { h.clone() } else { minimise(&spec.opts, spec.prefix.len(), h, v) };
             nviol += 1;
             let name = format!("{}-{}-{}", tier, spec.name, nviol);
             let path = crate::evidence::write_replay(
